@@ -250,6 +250,25 @@ def w3_variables(check: Check) -> None:
                  any(isinstance(s.ast, ast.Raise) for s, l in n.succ if l == "true")]
     collect = [n for n in cfg.stmt_nodes() for t in cfg.stores_at(n) if isinstance(t, ast.Subscript) and isinstance(t.value, ast.Name)
                and t.value.id == dname and r.term(t.slice, n)[0] == "attr"]
+
+    def engine_dictcomp(n) -> bool:
+        """`{v.name: v.value for v in self.engine.variables}` assigned to the environment."""
+        a_ = n.ast
+        if not (isinstance(a_, (ast.Assign, ast.AnnAssign)) and a_.value is not None):
+            return False
+        tg = a_.targets if isinstance(a_, ast.Assign) else [a_.target]
+        if not any(isinstance(t_, ast.Name) and t_.id == dname for t_ in tg):
+            return False
+        for x in ast.walk(a_.value):
+            if isinstance(x, ast.DictComp) and len(x.generators) == 1 and not x.generators[0].ifs and isinstance(x.generators[0].target, ast.Name):
+                v = x.generators[0].target.id
+                if isinstance(x.key, ast.Attribute) and x.key.attr == "name" and unparse(x.key.value) == v and isinstance(x.value, ast.Attribute) and \
+                        x.value.attr == "value" and unparse(x.value.value) == v and path_of(r.term(x.generators[0].iter, n)) == "self.engine.variables":
+                    return True
+        return False
+
+    comp_sites = [n for n in cfg.stmt_nodes() if engine_dictcomp(n)]
+    collect += comp_sites
     eng_x = bool(eng_tests) and bool(collect) and all(en not in cfg.reach([s for s, _ in c_.succ], blocked=set(eng_tests)) for c_ in collect)
     check.require(eng_x, "W3", "Function.membership/engine-x", "an engine variable named x is rejected before evaluation", loc(fn, en))
     over = has_guard(lambda t: any(s[0] == "binop" and s[1] == "&" for s in walk(t)) or (t[0] == "binop" and t[1] == "&"))
@@ -262,6 +281,7 @@ def w3_variables(check: Check) -> None:
     xs = any(r.term(t.slice, n) == ("const", "x") and r.term(n.ast.value, n) == ("param", x) and cfg.must_precede([n], en) for n, t in stores)  # type: ignore[union-attr]
     upd = any(isinstance(c.func, ast.Attribute) and c.func.attr == "update" and isinstance(c.func.value, ast.Name) and c.func.value.id == dname
               and c.args and path_of(r.term(c.args[0], n)) == "self.variables" and cfg.must_precede([n], en) for n, c in cfg.all_calls())
+    eng = bool(eng) or bool(comp_sites)
     check.require(bool(eng) and xs and upd, "W3", "Function.membership/environment",
                   "formulas see every engine variable's current value, x, and the term's own variables" if eng and xs and upd else
                   f"environment: engine variables={bool(eng)}, x={xs}, own variables={upd}", loc(fn, en))
